@@ -203,7 +203,6 @@ private:
   static const uint8_t SERIAL_VERSION = 1;
   static const size_t LEVELS_ARRAY_START = 5;
 
-  Allocator allocator_;
   Kernel kernel_;
   uint16_t k_;
   uint32_t dim_;
